@@ -3,7 +3,7 @@ import Mathlib.Tactic.Ring
 import Mathlib.Algebra.BigOperators.Group.List.Basic
 import OnlVerif.Lemmas.Port
 import OnlVerif.Net.GenSink
-import OnlVerif.Lemmas.NetworkThm
+import OnlVerif.Lemmas.NetworkLayer
 /-!
 # C08 — packets are never lost, duplicated or invented between source and sink
 
@@ -213,6 +213,66 @@ theorem network_identity (n : Wiring ι π κ) (es : List (GEv ι π)) (g : GSta
     q ∈ g.introduced ∧ ∀ p ∈ g.introduced, n.key p = n.key q → p = q := by
   have hi := run_inv n es {} g (ginv_init n) h
   exact ⟨hi.known s q hq, fun p hp hk => hi.key_inj (hi.known s q hq) hp hk⟩
+
+/-! ### networks of element transition systems (`Net.Node`, `Net.LStep`): every node runs its own LTS -/
+
+/-- **A network of element transition systems is a network of accounts**: let every node be a transition system of its
+own that satisfies the node interface (`NodeLaw`: an accepted packet is held afterwards, an emitted or discarded one is held
+no longer, nothing else changes what is held) and is `IdPreserving` (what it emits or discards is a record it holds).  Then
+every run of the network — any wiring, any interleaving of the nodes' local transitions, hand-overs synchronous — is an
+accepted run of the account network (so `network_conserves` and `network_identity` hold of it), every node's invariant
+holds, and the `held` list of its account is what the node holds locally. -/
+theorem network_refines {σ : Type} (n : Wiring ι π κ) (nd : ι → Node π σ) (law : ∀ a, NodeLaw (nd a))
+    (hid : ∀ a, IdPreserving (nd a)) (loc0 : ι → σ) (h0 : ∀ a, (nd a).Inv (loc0 a) ∧ (nd a).heldOf (loc0 a) = [])
+    (L : LState ι π σ) (es : List (GEv ι π)) (h : LReach n nd loc0 L es) :
+    Net.run n {} es = .ok L.g ∧
+    ∀ a, (nd a).Inv (L.loc a) ∧ ((nd a).heldOf (L.loc a)).Perm (L.g.acct a).held :=
+  lreach_run n nd law hid loc0 h0 L es h
+
+/-- **The very same packet, in a network of element transition systems**: under the assumption `IdPreserving` on the local
+steps (no node emits or discards anything but a record it holds), whatever any node holds locally, and whatever occurs in
+any list of any node or sink, is an introduced record and the only introduced record with its key. -/
+theorem network_identity_lts {σ : Type} (n : Wiring ι π κ) (nd : ι → Node π σ) (law : ∀ a, NodeLaw (nd a))
+    (hid : ∀ a, IdPreserving (nd a)) (loc0 : ι → σ) (h0 : ∀ a, (nd a).Inv (loc0 a) ∧ (nd a).heldOf (loc0 a) = [])
+    (L : LState ι π σ) (es : List (GEv ι π)) (h : LReach n nd loc0 L es) :
+    (∀ a, ∀ q ∈ (nd a).heldOf (L.loc a), q ∈ L.g.introduced ∧ ∀ p ∈ L.g.introduced, n.key p = n.key q → p = q) ∧
+    (∀ (s : Slot ι), ∀ q ∈ L.g.recs s, q ∈ L.g.introduced ∧ ∀ p ∈ L.g.introduced, n.key p = n.key q → p = q) := by
+  obtain ⟨hr, hc⟩ := lreach_run n nd law hid loc0 h0 L es h
+  refine ⟨fun a q hq => ?_, fun s q hq => network_identity n es L.g hr s q hq⟩
+  exact network_identity n es L.g hr (.held a) q (((hc a).2.mem_iff).mp hq)
+
+/-- **At quiescence nothing is held anywhere**: if every node of a network of element transition systems is quiescent
+(its own skeleton's `Quiescent`, under which it holds nothing — `NodeLaw.drained`), then no node's account holds a
+packet, and every introduced packet has either been delivered to exactly one sink or been dropped by exactly one node
+(rule recorded), exactly once, and is nowhere else: introduced = delivered ⊎ dropped, network-wide. -/
+theorem network_drains {σ : Type} (n : Wiring ι π κ) (nd : ι → Node π σ) (law : ∀ a, NodeLaw (nd a))
+    (hid : ∀ a, IdPreserving (nd a)) (loc0 : ι → σ) (h0 : ∀ a, (nd a).Inv (loc0 a) ∧ (nd a).heldOf (loc0 a) = [])
+    (L : LState ι π σ) (es : List (GEv ι π)) (h : LReach n nd loc0 L es) (hq : ∀ a, (nd a).Quiescent (L.loc a)) :
+    (∀ a, (L.g.acct a).held = []) ∧
+    (∀ p ∈ L.g.introduced, ∃ s : Slot ι, ((∃ k, s = .sink k) ∨ (∃ a, s = .dropped a)) ∧ (L.g.recs s).count p = 1 ∧
+        ∀ s' : Slot ι, s'.isPlace = true → s' ≠ s → p ∉ L.g.recs s') := by
+  obtain ⟨hr, hc⟩ := lreach_run n nd law hid loc0 h0 L es h
+  have hi := run_inv n es {} L.g (ginv_init n) hr
+  have hheld : ∀ a, (L.g.acct a).held = [] := by
+    intro a
+    have := (hc a).2
+    rw [(law a).drained _ (hc a).1 (hq a)] at this
+    exact this.nil_eq.symm
+  refine ⟨hheld, fun p hp => ?_⟩
+  obtain ⟨s, hs, h1, ho⟩ := (hi.exact p).1 hp
+  refine ⟨s, ?_, h1, fun s' hs' hne hm => ?_⟩
+  · cases s with
+    | sink k => exact Or.inl ⟨k, rfl⟩
+    | dropped a => exact Or.inr ⟨a, rfl⟩
+    | held a =>
+      have : L.g.rc (.held a) p = 0 := by simp [GState.rc, GState.recs, hheld a]
+      omega
+    | inn a => cases hs
+    | made a => cases hs
+    | out a => cases hs
+  · have := ho s' hs' hne
+    have := mem_of_rc_pos.mp hm
+    omega
 
 end Network
 end C08
